@@ -407,6 +407,9 @@ def subspaces(tier, seed):
     # task footprints of the per-block reducer tasks (write-write conflicts on shared memory)
     sp.append(Reduce1D(f"footprint-reducers-f8-len{5 if q else 7}", 5 if q else 7, 5 if q else 7, "f8",
                        maxthreads=4, seed=seed, footprint=True))
+    for dt in ("i4", "i8", "u1"):
+        sp.append(Reduce1D(f"footprint-reducers-{dt}-len4to{5 if q else 7}", 4, 5 if q else 7, dt,
+                           maxthreads=4, seed=seed, footprint=True))
     for shape in ((2, 2), (2, 3), (3, 2)) + (() if q else ((3, 3), (1, 4), (4, 1))):
         sp.append(Reduce2D(f"reducers-2d-{shape[0]}x{shape[1]}", shape, seed=seed))
     for dt in ("i1", "i4", "u1", "i8", "f4"):
